@@ -1091,28 +1091,22 @@ func sentenceText(cs []sclause, sep string) string {
 	return strings.Join(parts, sep)
 }
 
-func checkSentence(r *mc.Run, ts []target, rdocs []*ref.RDoc, cs []sclause, sep string) {
-	light := r.Quick() && len(cs) == 3 // quick tier: three-clause sentences on scorch only, without the JSON copy
+// sentenceProblem evaluates one sentence on one target: "" when the parsed query agrees with the
+// directly constructed boolean query and with the reference; else what is wrong.
+func sentenceProblem(t target, rdocs []*ref.RDoc, cs []sclause, sep string) (what, detail, r1, e1 string, ids []string, panicked bool) {
 	s := sentenceText(cs, sep)
 	rq := &ref.Q{Kind: "boolean"}
 	haveRef := true
-	var signs []string
-	mkDirect := func() query.Query {
-		bq := bleve.NewBooleanQuery()
-		for _, sc := range cs {
-			switch sc.sign {
-			case "+":
-				bq.AddMust(sc.c.mk())
-			case "-":
-				bq.AddMustNot(sc.c.mk())
-			default:
-				bq.AddShould(sc.c.mk())
-			}
-		}
-		return bq
-	}
+	bq := bleve.NewBooleanQuery()
 	for _, sc := range cs {
-		signs = append(signs, map[string]string{"+": "must", "-": "mustnot", "": "should"}[sc.sign])
+		switch sc.sign {
+		case "+":
+			bq.AddMust(sc.c.mk())
+		case "-":
+			bq.AddMustNot(sc.c.mk())
+		default:
+			bq.AddShould(sc.c.mk())
+		}
 		if sc.c.rq == nil {
 			haveRef = false
 			continue
@@ -1126,60 +1120,126 @@ func checkSentence(r *mc.Run, ts []target, rdocs []*ref.RDoc, cs []sclause, sep 
 			rq.Should = append(rq.Should, sc.c.rq)
 		}
 	}
+	r1, ids, e1, pv1, s1 := runQuery(t.idx, bleve.NewQueryStringQuery(s))
+	r2, _, e2, pv2, s2 := runQuery(t.idx, bq)
+	switch {
+	case pv1 != nil || pv2 != nil:
+		return "search-panic", fmt.Sprintf("%q on %s: panic %v %v @ %s %s", s, t, pv1, pv2, mc.TrimStack(s1), mc.TrimStack(s2)), r1, e1, ids, true
+	case e1 != "":
+		return "well-formed-sentence-rejected", fmt.Sprintf("%q on %s: %s", s, t, e1), r1, e1, ids, false
+	case e2 != "":
+		return "direct-construction-fails", fmt.Sprintf("%q on %s: %s", s, t, e2), r1, e1, ids, false
+	case r1 != r2:
+		w := "only the scores differ"
+		if idsOf(r1) != idsOf(r2) {
+			w = "the hit sets differ"
+		}
+		return "parsed-vs-constructed", fmt.Sprintf("%q on %s: %s: query string gives %s; constructed boolean query gives %s", s, t, w, r1, r2), r1, e1, ids, false
+	}
+	if haveRef {
+		must, may := ref.Expected(rq, rdocs, theAnalyse)
+		got := map[string]bool{}
+		for _, id := range ids {
+			got[id] = true
+		}
+		var miss, extra []string
+		for id := range must {
+			if !got[id] {
+				miss = append(miss, id)
+			}
+		}
+		for id := range got {
+			if !must[id] && !may[id] {
+				extra = append(extra, id)
+			}
+		}
+		if len(miss)+len(extra) > 0 {
+			sort.Strings(miss)
+			sort.Strings(extra)
+			return "meaning", fmt.Sprintf("%q on %s: reference (%s) expects %v; missing %v extra %v (got %v)", s, t, rq, bx.Keys(must), miss, extra, ids), r1, e1, ids, false
+		}
+	}
+	return "", "", r1, e1, ids, false
+}
+
+var signName = map[string]string{"+": "must(+)", "-": "must-not(-)", "": "should(bare)"}
+
+// classifySentence names the root cause of a failing sentence: the smallest failing part of it, and
+// for a single clause whether the sign or the clause form is at fault.
+func classifySentence(t target, rdocs []*ref.RDoc, base []clause, cs []sclause, sep string) (class string, minimal []sclause) {
+	fails := func(x []sclause, sep string) bool {
+		w, _, _, _, _, _ := sentenceProblem(t, rdocs, x, sep)
+		return w != ""
+	}
+	for _, sc := range cs {
+		if !fails([]sclause{sc}, " ") {
+			continue
+		}
+		all := true
+		for _, sg := range []string{"", "+", "-"} {
+			all = all && fails([]sclause{{sg, sc.c}}, " ")
+		}
+		if all {
+			return "clause-form:" + clauseKind(sc.c), []sclause{{"", sc.c}}
+		}
+		probe := base[0]
+		if probe.text == sc.c.text {
+			probe = base[1]
+		}
+		if fails([]sclause{{sc.sign, probe}}, " ") {
+			return "sign:" + signName[sc.sign], []sclause{{sc.sign, base[0]}}
+		}
+		return signName[sc.sign] + ":" + clauseKind(sc.c), []sclause{sc}
+	}
+	var signs []string
+	for _, sc := range cs {
+		signs = append(signs, signName[sc.sign])
+	}
 	sort.Strings(signs)
-	signClass := strings.Join(signs, "+")
+	if len(cs) == 2 && sep != " " && !fails(cs, " ") {
+		return "separator:" + fmt.Sprintf("%q", sep), cs
+	}
+	for i := 0; i < len(cs); i++ {
+		for j := i + 1; j < len(cs) && len(cs) > 2; j++ {
+			if fails([]sclause{cs[i], cs[j]}, " ") {
+				p := []string{signName[cs[i].sign], signName[cs[j].sign]}
+				sort.Strings(p)
+				return "combination:" + strings.Join(p, "+") + ":" + clauseKinds([]sclause{cs[i], cs[j]}), []sclause{cs[i], cs[j]}
+			}
+		}
+	}
+	return "combination:" + strings.Join(signs, "+") + ":" + clauseKinds(cs), cs
+}
+
+func checkSentence(r *mc.Run, ts []target, rdocs []*ref.RDoc, base []clause, cs []sclause, sep string) {
+	light := r.Quick() && len(cs) == 3 // quick tier: three-clause sentences on scorch only, without the JSON copy
+	s := sentenceText(cs, sep)
 	rep := map[string]any{"query_string": s, "part": "c"}
 	for _, t := range ts {
 		if t.layout != "per-doc" || (light && t.eng != "scorch") {
 			continue
 		}
-		r1, ids, e1, pv1, s1 := runQuery(t.idx, bleve.NewQueryStringQuery(s))
-		r2, _, e2, pv2, s2 := runQuery(t.idx, mkDirect())
+		what, detail, r1, e1, ids, _ := sentenceProblem(t, rdocs, cs, sep)
 		r.Eval(1)
-		if pv1 != nil || pv2 != nil {
-			r.Violation("grammar:search-panic:"+signClass, fmt.Sprintf("%q on %s: panic %v %v @ %s %s", s, t, pv1, pv2, mc.TrimStack(s1), mc.TrimStack(s2)), rep)
-			continue
-		}
-		if e1 != "" {
-			r.Violation("grammar:well-formed-sentence-rejected:"+clauseKinds(cs), fmt.Sprintf("%q on %s: %s", s, t, e1), rep)
-			continue
-		}
-		if e2 != "" {
-			r.Violation("grammar:direct-construction-fails:"+clauseKinds(cs), fmt.Sprintf("%q on %s: %s", s, t, e2), rep)
-			continue
-		}
-		if r1 != r2 {
-			what := "scores"
-			if idsOf(r1) != idsOf(r2) {
-				what = "hits"
-			}
-			r.Violation(fmt.Sprintf("grammar:parsed-vs-constructed:%s:%s:%s", what, signClass, differingKinds(t, cs)), fmt.Sprintf("%q on %s: query string gives %s; constructed boolean query gives %s", s, t, r1, r2), rep)
-		}
-		if haveRef {
-			must, may := ref.Expected(rq, rdocs, theAnalyse)
-			got := map[string]bool{}
-			for _, id := range ids {
-				got[id] = true
-			}
-			var miss, extra []string
-			for id := range must {
-				if !got[id] {
-					miss = append(miss, id)
+		if what != "" {
+			class, min := classifySentence(t, rdocs, base, cs, sep)
+			if sentenceText(min, " ") != s {
+				// report the smallest failing sentence instead
+				if w2, d2, _, _, _, _ := sentenceProblem(t, rdocs, min, " "); w2 != "" {
+					what, detail = w2, d2+fmt.Sprintf(" (shrunk from %q)", s)
+					rep = map[string]any{"query_string": sentenceText(min, " "), "part": "c"}
 				}
 			}
-			for id := range got {
-				if !must[id] && !may[id] {
-					extra = append(extra, id)
-				}
-			}
-			if len(miss)+len(extra) > 0 {
-				sort.Strings(miss)
-				sort.Strings(extra)
-				r.Violation(fmt.Sprintf("grammar:meaning:%s:%s", signClass, clauseKinds(cs)), fmt.Sprintf("%q on %s: reference (%s) expects %v; missing %v extra %v (got %v)", s, t, rq, bx.Keys(must), miss, extra, ids), rep)
-			}
+			r.Violation("grammar:"+class+":"+what, detail, rep)
+			continue
 		}
 		if t.eng == "scorch" {
-			r.Outcome(fmt.Sprintf("c|%s|hits=%d", signClass, len(ids)))
+			var signs []string
+			for _, sc := range cs {
+				signs = append(signs, signName[sc.sign])
+			}
+			sort.Strings(signs)
+			r.Outcome(fmt.Sprintf("c|%s|hits=%d", strings.Join(signs, "+"), len(ids)))
 		}
 		if light {
 			continue
@@ -1211,24 +1271,6 @@ func clauseKinds(cs []sclause) string {
 	set := map[string]bool{}
 	for _, sc := range cs {
 		set[clauseKind(sc.c)] = true
-	}
-	return strings.Join(bx.Keys(set), "+")
-}
-
-// differingKinds narrows a parsed-vs-constructed difference to the clause kinds that differ on their own.
-func differingKinds(t target, cs []sclause) string {
-	set := map[string]bool{}
-	for _, sc := range cs {
-		r1, _, _, _, _ := runQuery(t.idx, bleve.NewQueryStringQuery(sc.c.text))
-		bq := bleve.NewBooleanQuery()
-		bq.AddShould(sc.c.mk())
-		r2, _, _, _, _ := runQuery(t.idx, bq)
-		if r1 != r2 {
-			set[clauseKind(sc.c)] = true
-		}
-	}
-	if len(set) == 0 {
-		return "combination"
 	}
 	return strings.Join(bx.Keys(set), "+")
 }
@@ -1311,14 +1353,14 @@ func Run(r *mc.Run) {
 	var nsent atomic.Int64
 	r.ParFor(len(signed), 0, func(i int) {
 		a := signed[i]
-		checkSentence(r, ts, rdocs, []sclause{a}, " ")
+		checkSentence(r, ts, rdocs, base, []sclause{a}, " ")
 		nsent.Add(1)
 		for _, b := range signed {
-			checkSentence(r, ts, rdocs, []sclause{a, b}, " ")
-			checkSentence(r, ts, rdocs, []sclause{a, b}, "  ")
+			checkSentence(r, ts, rdocs, base, []sclause{a, b}, " ")
+			checkSentence(r, ts, rdocs, base, []sclause{a, b}, "  ")
 			nsent.Add(2)
 			for _, c := range signed {
-				checkSentence(r, ts, rdocs, []sclause{a, b, c}, " ")
+				checkSentence(r, ts, rdocs, base, []sclause{a, b, c}, " ")
 				nsent.Add(1)
 			}
 		}
